@@ -193,7 +193,7 @@ pub fn unarmor(data: &[u8], fill_bits: usize) -> Result<AisRawData> {
         }
         offset += 6;
     }
-    if fill_bits != 0 {
+    if fill_bits != 0 && byte_count != 0 {
         let bits_in_final_byte = match bit_count % 8 {
             0 => 8,
             1..=7 => bit_count % 8,
